@@ -217,6 +217,10 @@ def _run_chunk(cmd, lines, env=None, timeout=1800):
     if env:
         e.update(env)
     data = ("\n".join(lines) + "\n").encode()
+
+    # the extracted model recurses along lists (histories of 10^5 operations): lift the soft stack limit
+    if os.path.basename(cmd[0]) == "wfmodel":
+        cmd = ["sh", "-c", 'ulimit -s unlimited 2>/dev/null || ulimit -s "$(ulimit -H -s)" 2>/dev/null; exec "$0" "$@"'] + list(cmd)
     try:
         p = subprocess.run(cmd, input=data, stdout=subprocess.PIPE, stderr=subprocess.PIPE, env=e, timeout=timeout)
         rc = p.returncode
@@ -487,6 +491,8 @@ def head_of(line):
 def shrink_lines(case_line, still_fails, budget=200):
     """Generic delta-debugging on the s-expression: drop list elements while the
     disagreement persists."""
+    if len(case_line) > 200000:
+        return case_line            # every attempt on such a case costs minutes: it is reported as it is
     try:
         tree = parse_sexp(case_line)
     except Exception:
@@ -732,6 +738,8 @@ def run_property(P, tier, seed):
     k = q if tier == "quick" else th
     idx = list(range(len(corpus))) + rng.sample(range(len(corpus), len(lines)), min(k, len(gen)))
     idx = idx[:len(corpus) + k]
+    # a case of hundreds of kilobytes is not for coqc's parser: such cases are run by the extracted model only
+    idx = [j for j in idx if len(lines[j]) <= 200000]
     vm_bad = None
     if ok_coq or os.path.exists(os.path.join(COQ, "theories/Run/Main.vo")):
         chunks = [idx[i::NCPU] for i in range(NCPU)]
